@@ -237,3 +237,16 @@ Theorem C12_source_tm_destroy : forall k sx m h tb tmd n cm cmb ccells cused csl
     callC prog_env f prog_sbdf_tm_destroy [VCell tb 0] m k sx h = ONormal fin /\ inb fin = m /\ Imp.lookup cells_var (vars fin) = Some (VHeap (kill tb (kill cmb h2))).
 Proof. exact tm_destroy_source. Qed.
 Print Assumptions C12_source_tm_destroy.
+
+(* sbdf_obj_destroy on a string / binary object whose pointer array is filled only in front - what sbdf_read_objects hands
+   to it when it fails half-way: the filled elements are released once each, the empty slots are looked at and left alone,
+   the pointer array and the header are released; the call runs to completion (no released block touched, nothing twice) *)
+From Sbdf Require Import ImpFactsDestroyPartial.
+Theorem C12_source_obj_destroy_half_filled : forall k sx m h ob db ty filled nulls data,
+  obj_block h ob ty (Base.zlen (filled ++ nulls)) data -> as_ptr data = VCell db 0 -> ob <> db ->
+  Leaf.gen_sbdf_ti_is_arr ty <> 0%Z -> nth_error h db = Some (Some (filled ++ nulls)) -> elem_ptrs m filled -> Forall (fun c => c = VInt 0 \/ c = VNull) nulls ->
+  (Base.zlen (filled ++ nulls) <= int_max)%Z ->
+  exists f0, forall f, (f0 <= f)%nat -> exists fin,
+    callC prog_env f prog_sbdf_obj_destroy [VCell ob 0] m k sx h = ONormal fin /\ inb fin = m /\ Imp.lookup cells_var (vars fin) = Some (VHeap (kill ob (kill db h))).
+Proof. exact obj_destroy_partial_source. Qed.
+Print Assumptions C12_source_obj_destroy_half_filled.
